@@ -28,7 +28,8 @@ REPLAY_DIR = os.path.join(VERIF_DIR, "replays")
 
 class Harness(object):
     def __init__(self, name, fn, doc="", allow_exit=True, witness=True, max_paths=None,
-                 query_timeout_ms=None, path_budget_s=None, anchors=()):
+                 query_timeout_ms=None, path_budget_s=None, anchors=(), rtol=None):
+        self.rtol = rtol            # tolerance of the concrete replay (e.g. code that stores float32)
         self.name = name
         self.fn = fn
         self.doc = doc
@@ -138,7 +139,7 @@ def run_concrete(h, inputs):
     load.unbind()
     prev = core.current()
     core.set_current(None)
-    S = ConcSession(inputs)
+    S = ConcSession(inputs, rtol=h.rtol)
     exc = None
     try:
         with _quiet():
@@ -252,7 +253,7 @@ def run_one(h, prefix, opts):
             ok = cexc is None and [a[0] for a in sym_obs] == [b[0] for b in conc_obs]
         else:
             ok = (cexc is None and len(sym_obs) == len(conc_obs)
-                  and all(a[0] == b[0] and obs_equal(a[1], b[1]) for a, b in zip(sym_obs, conc_obs)))
+                  and all(a[0] == b[0] and obs_equal(a[1], b[1], h.rtol or 1e-7) for a, b in zip(sym_obs, conc_obs)))
         proved = set(l for (l, s, _, _) in obligations if s == "unsat")
         bad_props = [l for (l, r, _) in CS.results if not r and l in proved]
         if ok and bad_props and not any(o[1] == "sat" for o in obligations):
@@ -269,7 +270,7 @@ def run_one(h, prefix, opts):
                     ok = cexc is None and [a[0] for a in sym_obs] == [b[0] for b in conc_obs]
                 else:
                     ok = (cexc is None and len(sym_obs) == len(conc_obs)
-                          and all(a[0] == b[0] and obs_equal(a[1], b[1]) for a, b in zip(sym_obs, conc_obs)))
+                          and all(a[0] == b[0] and obs_equal(a[1], b[1], h.rtol or 1e-7) for a, b in zip(sym_obs, conc_obs)))
                 bad_props = [l for (l, r, _) in CS.results if not r and l in proved]
                 if ok and bad_props:
                     ok = False
